@@ -109,11 +109,22 @@ def generator_cases(ctx):
         mult = ctx.rng.choice([2, 4, 6])
         ext = ".dat" if "JETSCAPE" in name else ".oscar"
         path = os.path.join(ctx.work, "gen_" + name + ext)
-        with warnings.catch_warnings():
-            warnings.simplefilter("ignore")
-            g = GenerateFlow(0.1, 0.05)
-            getattr(g, name)(path, nev, mult, ctx.rng.randint(1, 10**6), **kw)
-        text = open(path).read()
+        text = None
+        for attempt in range(8):
+            # the k-particle-correlation generators can run off their momentum arrays for some seeds
+            # (IndexError in __create_k_particle_correlations, no file is produced): not a reader matter, try another seed
+            try:
+                with warnings.catch_warnings():
+                    warnings.simplefilter("ignore")
+                    g = GenerateFlow(0.1, 0.05)
+                    getattr(g, name)(path, nev, mult, ctx.rng.randint(1, 10**6), **kw)
+                text = open(path).read()
+                break
+            except IndexError:
+                continue
+        if text is None:
+            ctx.notes.append(f"{name}: no file produced in 8 attempts (generator raised IndexError)")
+            continue
         os.remove(path)
         kind, doc = doc_from_text(text)
         out.append({"kind": kind, "doc": doc, "text": text, "writer": name})
